@@ -34,7 +34,7 @@ ASSUMPTIONS = [
 ]
 PROBES = ["completed_by_software_rstack", "nonsoftware_rstack_during_reset", "error_during_reset", "timeout_exact", "tie_at_deadline",
           "rstack_before_request", "rstack_twice", "reply_duplicated_in_one_read", "reset_with_queued_send", "late_rstack_after_timeout", "loss_while_reset_pending", "loss_while_startup_pending",
-          "eof_while_pending", "close_while_pending", "data_frame_unacknowledged_at_loss", "both_waiters_pending_at_loss", "data_frame_unacknowledged_when_handshake_completes", "transport_closed_underneath", "retry_after_timeout", "joined_existing_reset", "joined_reset_unanswered", "counters_nonzero_before", "sched.batch", "sched.reorder"]
+          "eof_while_pending", "close_while_pending", "data_frame_unacknowledged_at_loss", "both_waiters_pending_at_loss", "data_frame_unacknowledged_when_handshake_completes", "nak_and_rstack_in_one_read", "transport_closed_underneath", "retry_after_timeout", "joined_existing_reset", "joined_reset_unanswered", "counters_nonzero_before", "sched.batch", "sched.reorder"]
 
 SW = R.RESET_SOFTWARE
 ARRIVALS = ("before", "now", "mid", "deadline", "after", "twice", "never", "double")
@@ -78,6 +78,8 @@ def plan(tier):
     for tx in (range(8) if tier == "thorough" else (0, 3, 7)):
         for when in ("before-rst", "after-rst"):
             sweeps.append(("stale", {"tx": tx, "rx": (tx * 5) % 8, "when": when, "sched": False}))
+            # ... the NCP had rejected that frame (NAK) just before it restarted: NAK and RSTACK arrive in one read
+            sweeps.append(("stale", {"tx": tx, "rx": (tx * 5) % 8, "when": when, "sched": False, "nak": True}))
     for seqs in (("never", "now"), ("never", "never"), ("after", "now"), ("now", "now")):
         sweeps.append(("chain", {"arrivals": list(seqs), "sched": False}))
     sweeps.append(("join", {"sched": False}))
@@ -496,7 +498,11 @@ def run_stale(params, tape, detail=False):
         await asyncio.sleep(0.02)
         st["t_rstack"] = loop.time() + 0.001
         cell.peer_frm = 0
-        rig.peer_send(R.f_rstack(SW), delay=0.001)
+        if params.get("nak"):
+            probes["nak_and_rstack_in_one_read"] = 1
+            rig.peer_send_bytes(R.wire(R.f_nak(tx % 8)) + R.wire(R.f_rstack(SW)), delay=0.001)
+        else:
+            rig.peer_send(R.f_rstack(SW), delay=0.001)
         await asyncio.sleep(0.1)
         # the new session: the NCP (freshly reset) acknowledges what is in sequence for it and answers anything else the way UG101 says
         expect = [0]
@@ -523,7 +529,7 @@ def run_stale(params, tape, detail=False):
         await asyncio.sleep(0.01)
 
     outcome, val = rig.run(main())
-    tag = f"DATA frame {tx} unacknowledged when the handshake completes (written {when})"
+    tag = f"DATA frame {tx} unacknowledged when the handshake completes (written {when}{', NAK and RSTACK in one read' if params.get('nak') else ''})"
     if outcome != "done":
         viol.append(("C11.timeout", "sim-" + outcome, f"{tag}: simulation ended with {outcome}: {val!r}"))
     else:
